@@ -31,7 +31,7 @@ CLAIMED = {
              "value (Free.run_get). "
              "WHOLE HISTORIES WITH squash_changes BLOCKS (Props/HistoryBlocks.lean): after any history of direct calls and blocks - each left normally or by an exception - pruning on or off, the trie is the tree of the FLATTENED history (committed blocks contribute their calls, aborted ones nothing), the database is complete for it and - pruning - holds exactly the live nodes with true counts (Free.history_blocks_world, history_blocks_pruning_exact), get of the tree-free world returns the flattened history's map model value and never raises (history_blocks_get), its root is the Yellow Paper root of those contents and depends on nothing else (history_blocks_root, history_blocks_root_depends_only_on_contents); applied to a concrete history with a committed and an aborted block (NonVacuity9). "
              "Tie: get() after every operation of generated histories (4 configurations) equals the model's; the raw-level run is "
-             "driven alongside fresh non-pruning tries (root after every op, final database, lookups).",
+             "driven alongside fresh non-pruning tries (root after every op, final database, lookups). NO CALL EVER RAISES, as a conclusion (Props/HistoryProgress.lean): the premise Good of the history theorems contained 'the call returns normally' for every call; Good' drops it (only the no-collision facts and the two physical side conditions remain) and Good' => Good along every history from the fresh world (good_of_good'), so every call of every history - direct or inside a block, pruning on or off - returns normally in the tree-carrying and in the tree-free world (history_never_raises) and the contents theorem holds under Good' (history_blocks_get').",
         technique="Lean 4 proof (induction over histories on a tree model) + correspondence check of model vs code",
         design_ref="6/C01"),
     "C02": dict(
@@ -72,7 +72,7 @@ CLAIMED = {
              "and counts (Free.history_lockstep); two specification subtleties were machine-found there (the view equals what ScratchDB "
              "reads only for caches with unique keys - view_is_what_is_read, cache_keys_unique_* - and the counts slot). "
              "WHOLE HISTORIES WITH squash_changes BLOCKS (Props/HistoryBlocks.lean): after any history of direct calls and blocks - each left normally or by an exception - pruning on or off, the trie is the tree of the FLATTENED history (committed blocks contribute their calls, aborted ones nothing), the database is complete for it and - pruning - holds exactly the live nodes with true counts (Free.history_blocks_world, history_blocks_pruning_exact), get of the tree-free world returns the flattened history's map model value and never raises (history_blocks_get), its root is the Yellow Paper root of those contents and depends on nothing else (history_blocks_root, history_blocks_root_depends_only_on_contents); applied to a concrete history with a committed and an aborted block (NonVacuity9). "
-             "Tie: exact db, root and counts after every step, every exit kind and position, for the tree-carrying AND the tree-free world. Also stated directly on the tree-free transcription FWorld with NO run-level hypothesis (Free.batch_op_leaves_outer, Free.abort_restores: a block left by an exception restores the world exactly whatever was done inside; Free.commit_failure_keeps_outer; Free.commit_adopts_root). HISTORIES WITH FAILING COMMITS on a non-pruning trie (Props/HistoryFailCommit.lean): a block whose body runs normally and whose commit is cut short at its (n+1)-th database write leaves tries and counts exactly as before, loses no binding and re-establishes the between-steps invariant (Free.fail_block_step); along whole histories of direct calls, committed / aborted blocks and blocks with failed commits the tree-free world agrees call by call with the tree-carrying one (history_fail_commit_lockstep), the trie is the tree of the calls that count - a block with a failed commit contributes nothing -, the database is complete for it and get returns the map model's value (history_fail_commit_world, history_fail_commit_get): 'remains fully usable and correct afterwards'; concrete history in NonVacuity11 (the failed commit leaves one orphan entry, the root does not move).",
+             "Tie: exact db, root and counts after every step, every exit kind and position, for the tree-carrying AND the tree-free world. Also stated directly on the tree-free transcription FWorld with NO run-level hypothesis (Free.batch_op_leaves_outer, Free.abort_restores: a block left by an exception restores the world exactly whatever was done inside; Free.commit_failure_keeps_outer; Free.commit_adopts_root). HISTORIES WITH FAILING COMMITS on a non-pruning trie (Props/HistoryFailCommit.lean): a block whose body runs normally and whose commit is cut short at its (n+1)-th database write leaves tries and counts exactly as before, loses no binding and re-establishes the between-steps invariant (Free.fail_block_step); along whole histories of direct calls, committed / aborted blocks and blocks with failed commits the tree-free world agrees call by call with the tree-carrying one (history_fail_commit_lockstep), the trie is the tree of the calls that count - a block with a failed commit contributes nothing -, the database is complete for it and get returns the map model's value (history_fail_commit_world, history_fail_commit_get): 'remains fully usable and correct afterwards'; concrete history in NonVacuity11 (the failed commit leaves one orphan entry, the root does not move). NO CALL EVER RAISES, as a conclusion (Props/HistoryProgress.lean): the premise Good of the history theorems contained 'the call returns normally' for every call; Good' drops it (only the no-collision facts and the two physical side conditions remain) and Good' => Good along every history from the fresh world (good_of_good'), so every call of every history - direct or inside a block, pruning on or off - returns normally in the tree-carrying and in the tree-free world (history_never_raises) and the contents theorem holds under Good' (history_blocks_get').",
         technique="Lean 4 proof (invariants of the world executor) + correspondence check with fault injection",
         design_ref="6/C05"),
     "C06": dict(
